@@ -176,6 +176,45 @@ def run(ctx):
             else:
                 r.fail(inst, func=g.name, sig='header field read without native magic test: ' + '.'.join(x[1] for x in fl), loc=i.loc,
                        msg='a getter returns header metadata without first comparing the magic in host order')
+    # reads of a header field through a byte copy (`memcpy(&raw, buf + offsetof(fragment_header_t, meta.idx), 4)`) out of a buffer
+    # the same function addresses as a fragment header
+    from ..vflow import strip_ptr_casts as _spc9
+    for g in hm.functions.values():
+        bases = {_spc9(g, bc.ops[0]) for bc in g.insts() if bc.op == 'bitcast' and bc.ty and 'fragment_header_s*' in bc.ty.replace(' ', '')}
+        if not bases or g.name in ('@alloc_fragment_buffer',):
+            continue
+        for i in g.insts():
+            if i.op == 'call' and (i.callee or '').startswith('@llvm.memcpy') and len(i.ops) > 2 and re.match(r'^\d+$', i.ops[2]):
+                x, nbytes = i.ops[1], int(i.ops[2])
+            elif i.op == 'load' and i.ty in ('i8', 'i16', 'i32', 'i64') and g.defs.get(i.ops[0]) is not None and g.defs[i.ops[0]].op == 'bitcast':
+                x, nbytes = i.ops[0], int(i.ty[1:]) // 8
+            else:
+                continue
+            off, n_ = 0, 0
+            d_ = g.defs.get(x)
+            while d_ is not None and n_ < 8:
+                if d_.op == 'bitcast':
+                    x = d_.ops[0]
+                elif d_.op == 'getelementptr' and d_.gep_base_ty == 'i8' and len(d_.ops) == 2 and re.match(r'^-?\d+$', d_.ops[1]):
+                    off += int(d_.ops[1]); x = d_.ops[0]
+                else:
+                    break
+                d_ = g.defs.get(x); n_ += 1
+            if x not in bases:
+                continue
+            path = E._field_at('fragment_header_s', off, nbytes)
+            if not path or path == ('magic',):
+                continue
+            F = Facts(P, g, i.bb)
+            ok = any(pr == 'eq' and ((re.search(r'\.magic$', a) and const_of(b) == MAGIC) or (re.search(r'\.magic$', b) and const_of(a) == MAGIC))
+                     for pr, a, b in F.facts) or \
+                 any(pr == 'ne' and '@is_fragment(' in a and b == '0' for pr, a, b in F.facts)
+            inst = f'{g.name}: byte copy of {".".join(path)}'
+            if ok:
+                r.ok(inst, loc=i.loc, func=g.name)
+            else:
+                r.fail(inst, func=g.name, sig='header field read without native magic test: ' + '.'.join(path), loc=i.loc,
+                       msg='a getter returns header metadata without first comparing the magic in host order')
     r.require_min(8)
 
     # ---------------- R09c read-only
